@@ -8,7 +8,11 @@ import sys
 
 HERE = os.path.dirname(os.path.dirname(os.path.abspath(__file__)))
 extra = {'C13-B': ['C13', 'C16'], 'C05-B': ['C17'], 'C17-B': ['C17'], 'C02-A': ['C02', 'C03', 'C05'], 'C05': ['C05', 'C10'],
-         'C10-B': ['C10', 'C05'], 'C12-E': ['C12', 'C16'], 'C18-F': ['C18', 'C12'], 'C11-F': ['C11', 'C10']}
+         'C10-B': ['C10', 'C05'], 'C12-E': ['C12', 'C16'], 'C18-F': ['C18', 'C12'], 'C11-F': ['C11', 'C10'],
+         # round 5: the eight "grace period measured with the wall clock" variants break their nominal property only
+         # by never finishing the operation; the owners of that are C02 / C03 / C05
+         'C01-H': ['C01', 'C03', 'C05'], 'C10-H': ['C10', 'C05'], 'C15-H': ['C15', 'C02'], 'C14-H': ['C14', 'C03'],
+         'C08-H': ['C08', 'C02'], 'C18-G': ['C18', 'C15'], 'C04-H': ['C04', 'C13']}
 rows = []
 import concurrent.futures as cf
 
